@@ -398,7 +398,7 @@ func oracle(s *scen, x *vsched.Exec, o *obs, links []outlink, reached bool) erro
 			return fmt.Errorf("duplicate-add: %q reached HQ %d times although no add timed out after committing", v, n)
 		}
 	}
-	for h := 0; h < 6; h++ {
+	for h := 0; h < 64; h++ { // "all hop counts": far beyond any realistic --max-hops
 		if hq.VerifC15HopsRoundTrip(h) != h {
 			return fmt.Errorf("hops-changed: pathToHops(hopsToPath(%d)) = %d", h, hq.VerifC15HopsRoundTrip(h))
 		}
